@@ -270,6 +270,13 @@ package util
 //@   loop 1 invariant forall k :: 0 <= k && k < len(answers) ==> answers[k] == nil || (tagReadable(answers[k]) && extractable(answers[k], domain))
 //@   callsite sort.Slice#1 (answers []dns.RR) assume forall k :: 0 <= k && k < len(answers) ==> answers[k] == nil || (tagReadable(answers[k]) && extractable(answers[k], domain))  "sort.Slice only permutes the elements: what held for every element still holds for every element"
 //@   loop 2 vars iter int, rng []dns.RR
+// C10: the payload carried in a host-name record is taken from the record's name as received: exactly the
+// octets before ".<domain>." (after the two order characters of a CNAME), unchanged (no case folding, no
+// re-encoding) before the label dots are removed
+//@   property C10
+//@   callsite Undotify#1 (arg0 string, v *dns.MX) require arg0 == v.Mx[0 : len(v.Mx)-len(domain)-2]                      :mx_payload_is_the_name_as_received
+//@   callsite Undotify#2 (arg0 string, v *dns.SRV) require arg0 == v.Target[0 : len(v.Target)-len(domain)-2]               :srv_payload_is_the_name_as_received
+//@   callsite Undotify#3 (arg0 string, v *dns.CNAME) require arg0 == v.Target[2 : len(v.Target)-len(domain)-2]             :cname_payload_is_the_name_as_received
 
 //@ func UnwrapDnsResponse$1
 //@   property C12
